@@ -17,11 +17,17 @@ PROP = Property(
                   "extracted text of From<StakeDistributionEntry> for MKTreeNode: leaf == utf8(pool_id ++ dec(stake)); obligation: distinct (pool id, stake) entries have distinct leaves (KNOWN FINDING F-C11-1: fails); "
                   "restricted obligation: identifiers of equal length ==> distinct leaves (holds)",
                   ["From<StakeDistributionEntry> for MKTreeNode"]),
+        VerusUnit("mkmap_proof", "verus/C11/mkmap_proof.tmpl.rs",
+                  "extracted text of the merkelized-map proof's linking rule (internal/mithril-merkle-tree): MKMapProof::verify() Ok ==> the master proof verifies, EVERY sub-proof verifies (recursive call under the same contract = induction "
+                  "hypothesis) and for EVERY (key, sub-proof) pair the node key + root(sub-proof) is a leaf of the master proof (no detached or skipped sub-proof); compute_root() is the master proof's root",
+                  ["MKMapProof::verify", "MKMapProof::compute_root"]),
     ],
     replays=[dict(crate="mithril-common", file=SD, module="replays/c11_stake.rs"),
-             dict(crate="mithril-common", file="mithril-common/src/messages/cardano_transactions_proof.rs", module="replays/c11_proofs.rs")],
+             dict(crate="mithril-common", file="mithril-common/src/messages/cardano_transactions_proof.rs", module="replays/c11_proofs.rs"),
+             dict(crate="mithril-merkle-tree", file="internal/mithril-merkle-tree/src/merkle_map.rs", module="replays/c11_mkmap.rs")],
     assumptions=[
-        "MKMapProof::verify / contains (ckb-merkle-mountain-range behind internal/mithril-merkle-tree) are callee contracts: 'valid proof' and 'leaf of the proof' are uninterpreted; that they imply membership under the root is the assumed contract of the external algorithm (see C09)",
+        "in the `proofs` unit MKMapProof::verify / contains are callee contracts ('valid proof' and 'leaf of the proof' uninterpreted); the `mkmap_proof` unit puts MKMapProof::verify itself under contract (linking rule master <-> sub-proofs, recursion "
+        "verified modularly: the recursive call carries the same contract, partial correctness); below it MKProof::verify (ckb-merkle-mountain-range, external algorithm) and MKProof::contains / MKMapProof::contains (closure scans over the leaves) stay assumed contracts (see C09)",
         "hex / JSON decoding of the proof string (ProtocolMkProof::from_json_hex / from_bytes_hex) is a partial function of the string; item conversion From<message part> is field-by-field (contract)",
         "std::fmt: format!(\"{}{}\", a, b) == Display(a) ++ Display(b); Display of the u64 newtypes is decimal; utf8 and decimal rendering injective (assumed)",
         "String's PartialEq is view equality (axiom_string_eq: vstd specifies == on String but not the PartialEqSpec used for Option<String>)",
